@@ -27,6 +27,9 @@ import (
 type Graph struct {
 	Blocks []val.V `json:"blocks"`
 	Root   val.V   `json:"root"`
+	// RootImpl names the node implementation that holds the root when it is realised (nodes.Impl; empty =
+	// basicnode Any). Blocks are always loaded into what the traversal's prototype chooser says.
+	RootImpl string `json:"root_impl,omitempty"`
 }
 
 var BlockLP = lk.LP{Version: 1, Codec: lk.CodecDagCbor, MhType: 0x12, MhLength: 32}
@@ -101,6 +104,9 @@ func Draw(t *rapid.T, o Opts) Graph {
 		}
 		if i == n {
 			g.Root = v
+			if rapid.IntRange(0, 2).Draw(t, "rootimpl") == 0 {
+				g.RootImpl = string(rapid.SampledFrom(nodes.Impls).Draw(t, "rootimplwhich"))
+			}
 		} else {
 			v = v.SortKeys(val.LessLenFirst)
 			g.Blocks = append(g.Blocks, v)
@@ -184,6 +190,9 @@ func Realise(g Graph, np datamodel.NodePrototype) (*Real, error) {
 		}
 		// the same bytes under the raw-codec address
 		mem.Bag[RawCidOf(b)] = mem.Bag[l.Binary()]
+	}
+	if np == nil && g.RootImpl != "" {
+		np = nodes.ProtoFor(nodes.Impl(g.RootImpl), g.Root.K)
 	}
 	if np == nil {
 		np = basicnode.Prototype.Any
